@@ -194,6 +194,7 @@ def b_partial(en, st, a, kw):
         for i, v in enumerate(pos):
             vt, st = en.term(v, st)
             bound = snoc(bound, V.Pair(V.Int(npos + i), vt))
+    bound = assoc_set(bound, S('__partial__'), V.Bool(True))     # marks functools.partial objects (isinstance(x, partial))
     for k, v in kw.items():
         vt, st = en.term(v, st)
         bound = assoc_set(bound, S(k), vt)
